@@ -129,6 +129,7 @@ void parsec_atomic_rwlock_rdlock(parsec_atomic_rwlock_t *L)
     struct timespec ts = { .tv_sec = 0, .tv_nsec = 100 };
     w = parsec_atomic_fetch_add_int32(&L->rin, RINC) & WBITS;
     if( w != 0 ) {
+        PARSEC_VERIF_WAIT_UNTIL( w != (L->rin & WBITS) );
         while( w == (L->rin & WBITS) )
             if( count++ > 1000 )
               nanosleep( &ts, NULL );
@@ -148,12 +149,14 @@ void parsec_atomic_rwlock_wrlock(parsec_atomic_rwlock_t *L)
     int count = 0;
     struct timespec ts = { .tv_sec = 0, .tv_nsec = 100 };
     ticket = parsec_atomic_fetch_inc_int32(&L->win);
+    PARSEC_VERIF_WAIT_UNTIL( L->wout == ticket );
     while( L->wout != ticket )
         if( count++ > 1000 )
             nanosleep( &ts, NULL );
     w = PRES | (ticket & PHID);
     ticket = parsec_atomic_fetch_add_int32(&L->rin, w);
     count = 0;
+    PARSEC_VERIF_WAIT_UNTIL( L->rout == ticket );
     while( L->rout != ticket )
         if( count++ > 1000 )
             nanosleep( &ts, NULL );
